@@ -342,19 +342,26 @@ int convert_msa_to_internal(struct msa* msa, int type)
         struct alphabet* a = NULL;
         struct msa_seq* seq = NULL;
         int8_t* t = NULL;
+        int8_t unknown;
         int i,j;
 
         RUNP(a = create_alphabet(type));
 
         t = a->to_internal;
         msa->L = a->L;
+        /* letters outside the alphabet are treated as the "any residue" code */
+        unknown = t[(int) 'X'];
+        if(unknown == -1){
+                unknown = t[(int) 'N'];
+        }
+        ASSERT(unknown != -1, "Alphabet has no code for unknown residues");
         for(i = 0; i <  msa->numseq;i++){
                 seq = msa->sequences[i];
                 for(j =0 ; j < seq->len;j++){
                         if(t[(int) seq->seq[j]] == -1){
                                 WARNING_MSG("there should be no character not matching the alphabet");
                                 WARNING_MSG("offending character: >>>%c<<<", seq->seq[j]);
-                                /* exit(0); */
+                                seq->s[j] = unknown;
                         }else{
                                 seq->s[j] = t[(int) seq->seq[j]];
                         }
